@@ -627,6 +627,10 @@ def check_values(case):
     check_result_meta(got, x, yu, what)
     flat = np.asarray(got.values, dtype=float).reshape(-1)
     nonzero = compare_values(flat, spec, xs, what)
+    # The definition must also hold when the same parameter objects are used again (a model that
+    # rescales one of its arguments in place is right once and wrong afterwards; seeded/C16-s1).
+    again = model(x, **params)
+    compare_values(np.asarray(again.values, dtype=float).reshape(-1), spec, xs, what + " (second evaluation, same parameter objects)")
     labs = [*spec_labels(spec), *unit_labels(case), "x:" + shape]
     if spec["kind"] == "composite":
         # a composite equals the sum of its parts, each part evaluated as a model of its own
